@@ -508,6 +508,127 @@ def nf(segs) -> str:
     return out
 
 
+# ---- stage programs ---------------------------------------------------------------------------------
+def _prog(items) -> str:
+    """Lean list expression of a translated program (instructions and list-valued loop segments)"""
+    segs, cur = [], []
+    for it in items:
+        if isinstance(it, tuple):
+            if cur:
+                segs.append("[" + ", ".join(cur) + "]")
+                cur = []
+            segs.append(it[1])
+        else:
+            cur.append(it)
+    if cur or not segs:
+        segs.append("[" + ", ".join(cur) + "]")
+    out = segs[-1]
+    for sg in reversed(segs[:-1]):
+        out = f"{sg} ++ {out}"
+    return out
+
+
+RECON_MEMBERS = [("ifft", "IFFT"), ("rss", "RSS"), ("complex", "COMPLEX"), ("complexMod", "COMPLEX_MOD"),
+                 ("sense", "SENSE"), ("senseMod", "SENSE_MOD")]
+SMAP_MEMBERS = [("espirit", "ESPIRIT"), ("rssEstimate", "RSS_ESTIMATE"), ("unit", "UNIT")]
+
+
+def stage_programs(tr: "Tr") -> tuple[str, dict]:
+    """`def compile : Stage → List Instr` translated class by class; a class that cannot be understood falls back to
+    the hand-written program of that stage (status `skipped`)"""
+    status: dict[str, str] = {}
+    arms: list[str] = []
+
+    def run(cls, method, params, keyvars, listvars=None, tree=None):
+        ex = StageExec(tr, tree or tr.tree, cls, method, params, keyvars)
+        ex.listvars = listvars or {}
+        return _prog(ex.run())
+
+    def arm(name, pattern, build, fallback_args):
+        try:
+            arms.append(f"  | {pattern} => {build()}")
+            status["compile." + name] = "translated"
+        except Untranslatable as e:
+            arms.append(f"  | {pattern} => Pipeline.compile ({fallback_args})   -- SKIPPED: {str(e)[:120]}")
+            status["compile." + name] = f"skipped: {e}"
+
+    def match(discr: str, cases: list[tuple[str, str]]) -> str:
+        return f"match {discr} with\n" + "\n".join(f"      | {pat} => {body}" for pat, body in cases)
+
+    M = Meta
+    arm("toTensor", ".toTensor", lambda: run("ToTensor", "__call__", {}, {}), ".toTensor")
+    arm("cropKspace", ".cropKspace center useSeed", lambda: match("center", [
+        (("true" if c else "false"), run("CropKspace", "__call__", {"self.image_space_center_crop": c, "self.crop": M(),
+                                                                      "self.random_crop_sampler_use_seed": M()}, {}))
+        for c in (True, False)]), ".cropKspace center useSeed")
+    arm("rescaleKspace", ".rescaleKspace k", lambda: run("RescaleKspace", "__call__", {"self.rescale_2d_if_3d": M()},
+                                                         {"self.kspace_key": "k"}), ".rescaleKspace k")
+    arm("padKspace", ".padKspace k", lambda: run("PadKspace", "__call__", {}, {"self.kspace_key": "k"}), ".padKspace k")
+    for nm in ("randomRotation", "randomFlip", "randomReverse"):
+        arms.append(f"  | .{nm} => Pipeline.compile .{nm}   -- not translated: SystemRandom augmentation, outside the quantifier")
+        status["compile." + nm] = "skipped: random augmentation (probability 0 in the quantifier)"
+    arm("computeZeroPadding", ".computeZeroPadding kk pk thr",
+        lambda: run("ComputeZeroPadding", "__call__", {"self.eps": "truthy"}, {"self.kspace_key": "kk", "self.padding_key": "pk"}),
+        ".computeZeroPadding kk pk thr")
+    arm("applyZeroPadding", ".applyZeroPadding kk pk",
+        lambda: run("ApplyZeroPadding", "__call__", {}, {"self.kspace_key": "kk", "self.padding_key": "pk"}),
+        ".applyZeroPadding kk pk")
+    arm("createSamplingMask", ".createSamplingMask fromCrop seed returnAcs", lambda: match("fromCrop, returnAcs", [
+        (f"{'true' if fc else 'false'}, {'true' if ra else 'false'}",
+         run("CreateSamplingMask", "__call__", {"self.shape": "truthy" if fc else None, "self.use_seed": M(), "self.return_acs": ra}, {}))
+        for fc in (True, False) for ra in (True, False)]), ".createSamplingMask fromCrop seed returnAcs")
+
+    def compress():
+        fn = find_function(tr.tree, "CompressCoilModule.forward")
+        reads = {ast.unparse(n.slice) for n in ast.walk(fn) if isinstance(n, ast.Subscript) and ast.unparse(n.value) == "sample"
+                 and isinstance(n.ctx, ast.Load)}
+        writes = {ast.unparse(n.slice) for n in ast.walk(fn) if isinstance(n, ast.Subscript) and ast.unparse(n.value) == "sample"
+                  and isinstance(n.ctx, ast.Store)}
+        if reads != {"self.kspace_key"} or writes != {"self.kspace_key"} or "torch.linalg.svd" not in ast.unparse(fn):
+            raise Untranslatable(f"CompressCoil reads {sorted(reads)} writes {sorted(writes)}")
+        return "[.assign [] k (.lin .compress) [k]]"
+    arm("compressCoil", ".compressCoil k", compress, ".compressCoil k")
+    arm("padCoilDimension", ".padCoilDimension k",
+        lambda: run("PadCoilDimensionModule", "forward", {"self.num_coils": "truthy"}, {"self.key": "k"}), ".padCoilDimension k")
+    arm("estimateBodyCoilImage", ".estimateBodyCoilImage seed",
+        lambda: run("EstimateBodyCoilImage", "__call__", {"self.use_seed": M()}, {}), ".estimateBodyCoilImage seed")
+    arm("estimateSensitivityMap", ".estimateSensitivityMap kk ty gaussian", lambda: match("ty, gaussian", [
+        (f".{lean}, {'true' if g else 'false'}",
+         run("EstimateSensitivityMapModule", "forward", {"self.type_of_map": "SensitivityMapType." + py,
+                                                         "self.gaussian_sigma": "truthy" if g else None}, {"self.kspace_key": "kk"}))
+        for lean, py in SMAP_MEMBERS for g in (True, False)]), ".estimateSensitivityMap kk ty gaussian")
+    arm("deleteKeys", ".deleteKeys ks", lambda: run("DeleteKeysModule", "forward", {}, {}, {"self.keys": "ks"}), ".deleteKeys ks")
+    arm("renameKeys", ".renameKeys olds news",
+        lambda: run("RenameKeysModule", "forward", {}, {}, {"self.old_keys": "olds", "self.new_keys": "news"}), ".renameKeys olds news")
+    arm("applyMask", ".applyMask mk ik ok",
+        lambda: run("ApplyMaskModule", "forward", {}, {"self.sampling_mask_key": "mk", "self.input_kspace_key": "ik",
+                                                       "self.target_kspace_key": "ok"}), ".applyMask mk ik ok")
+    arm("computeScalingFactor", ".computeScalingFactor nk pct sfk", lambda: match("nk, pct", [
+        (f"{lean}, {'true' if pc else 'false'}",
+         run("ComputeScalingFactorModule", "forward", {"self.normalize_key": py, "self.percentile": "truthy" if pc else None},
+             {"self.normalize_key": "k", "self.scaling_factor_key": "sfk"}))
+        for lean, py in ((".given", "scaling_factor"), (".none", None), (".key k", "<key>")) for pc in (True, False)]),
+        ".computeScalingFactor nk pct sfk")
+    arm("normalize", ".normalize sfk keys",
+        lambda: run("NormalizeModule", "forward", {}, {"self.scaling_factor_key": "sfk"}, {"self.keys_to_normalize": "keys"}),
+        ".normalize sfk keys")
+    arm("computeImage", ".computeImage kk tk r", lambda: match("r", [
+        (f".{lean}", run("ComputeImageModule", "forward", {"self.type_reconstruction": "ReconstructionType." + py},
+                         {"self.kspace_key": "kk", "self.target_key": "tk"}))
+        for lean, py in RECON_MEMBERS]), ".computeImage kk tk r")
+    arm("addBooleanKeys", ".addBooleanKeys",
+        lambda: run("AddBooleanKeysModule", "forward", {"self.keys": M(), "self.values": M()}, {}), ".addBooleanKeys")
+    arm("maskSplitter", ".maskSplitter ty keepAcs seed kk", lambda: match("keepAcs", [
+        (("true" if ka else "false"), run("MaskSplitter", "forward", {"self.keep_acs": ka, "self.use_seed": M()},
+                                          {"self.kspace_key": "kk"}, tree=tr.ssl_tree))
+        for ka in (True, False)]), ".maskSplitter ty keepAcs seed kk")
+    text = ("/-- translated from the `forward` / `__call__` bodies of the transform classes in `" + MT + "` and of\n"
+            "`MaskSplitter` in `" + SSL + "`: which sample keys every class reads and writes, under which presence guards, and\n"
+            "which primitive it applies (symbolic execution + register coalescing, see harness/translate/recipes/c08.py) -/\n"
+            "def compile : Stage → List Instr\n" + "\n".join(arms) + "\n")
+    return text, status
+
+
 FALLBACK = """/-- SKIPPED ({reason}); stands for the hand-written model, the bridge is vacuous -/
 def zero_padding_threshold : ThrPred := thrCurrent
 def maskSeed (useSeed : Bool) : Option (List SeedField) := seedOf useSeed [.filename]
@@ -516,6 +637,7 @@ def splitSeed (useSeed : Bool) : Option (List SeedField) := seedOf useSeed [.fil
 def crop_seed_fields : List SeedField := [.filename]
 def build_supervised (c : Config) : List Stage := Pipeline.buildSupervisedNF c
 def build (c : Config) : List Stage := Pipeline.buildNF c
+def compile : Stage → List Instr := Pipeline.compile
 """
 
 
@@ -552,9 +674,15 @@ def _c08_extra():
             + f"/-- translated from `{MT}`:`build_supervised_mri_transforms` (statement order, guards, constructor arguments) -/\n"
             + f"def build_supervised (c : Config) : List Stage :=\n  {sup}\n\n"
             + f"/-- translated from `{MT}`:`build_mri_transforms` -/\n"
-            + f"def build (c : Config) : List Stage :=\n  {outer}\n"
+            + f"def build (c : Config) : List Stage :=\n  {outer}\n\n"
         )
-        return text, {n: "translated" for n in names}
+        st = {n: "translated" for n in names}
+        try:
+            ctext, cstatus = stage_programs(tr)
+        except Untranslatable as e:      # pragma: no cover - stage_programs catches per class
+            ctext, cstatus = "def compile : Stage → List Instr := Pipeline.compile\n", {"compile": f"skipped: {e}"}
+        st.update(cstatus)
+        return text + ctext, st
     except Untranslatable as e:
         return head + FALLBACK.format(reason=str(e).replace("-/", "- /")), {n: f"skipped: {e}" for n in names}
 
@@ -818,6 +946,11 @@ class StageExec:
     def ev(self, node: ast.AST, dst: Loc | None = None):
         """evaluate a tensor expression; returns a Loc (emitting instructions), a Zeros, or a Meta"""
         node = self.strip(node)
+        if isinstance(node, ast.IfExp) and not self.is_meta_expr(node):
+            tv = self.truth(node.test)
+            if tv is None:
+                raise Untranslatable(f"{self.cls}: conditional expression `{ast.unparse(node)[:60]}`")
+            return self.ev(node.body if tv else node.orelse, dst)
         if isinstance(node, ast.Name):
             v = self.locals.get(node.id, _MISSING)
             if v is _MISSING:
@@ -1040,6 +1173,24 @@ class StageExec:
             return None
         if isinstance(st, ast.If):
             return self.if_stmt(st, meta_only)
+        if isinstance(st, ast.Continue):
+            return None
+        if isinstance(st, ast.For):
+            return self.for_stmt(st)
+        if isinstance(st, ast.AnnAssign) and st.value is not None:
+            st = ast.Assign(targets=[st.target], value=st.value)
+        if isinstance(st, ast.Delete) and all(isinstance(t_, ast.Name) for t_ in st.targets):
+            return None
+        if (isinstance(st, ast.Assign) and len(st.targets) == 1 and isinstance(st.targets[0], ast.Tuple)
+                and isinstance(st.value, ast.Tuple) and len(st.targets[0].elts) == len(st.value.elts)
+                and all(isinstance(e, ast.Name) for e in st.targets[0].elts)):
+            vals = [self.ev(v) for v in st.value.elts]          # `a, b = f(a), g(b)`
+            for e, v in zip(st.targets[0].elts, vals):
+                self.locals[e.id] = v
+            return None
+        if (isinstance(st, ast.Assign) and len(st.targets) == 1 and isinstance(st.targets[0], ast.Tuple)
+                and "self.split_method(" in ast.unparse(st.value)):
+            return self.splitter_stmt(st)
         if isinstance(st, ast.Assign) and len(st.targets) == 1:
             tg = st.targets[0]
             if isinstance(tg, ast.Tuple) and len(tg.elts) == 2 and ast.unparse(tg.elts[1]) == "_":
@@ -1106,6 +1257,94 @@ class StageExec:
                             self.locals[e.id] = Meta()
                     return None
         raise Untranslatable(f"{self.cls}: statement `{ast.unparse(st)[:70]}`")
+
+    # ---- loops -----------------------------------------------------------------------------------
+    def for_stmt(self, st: ast.For):
+        it = ast.unparse(st.iter)
+        tgt = ast.unparse(st.target)
+        lists = getattr(self, "listvars", {})
+        # (a) `for key in self.keys:` over a list-of-keys parameter
+        if it in lists and isinstance(st.target, ast.Name):
+            return self.loop_over(lists[it], "k", {tgt: "k"}, st.body, extra_guard=None)
+        # (b) `for key in sample.keys(): if key not in self.<list>: continue; …` — the listed keys that are present
+        if it == "sample.keys()" and isinstance(st.target, ast.Name) and st.body and isinstance(st.body[0], ast.If):
+            g = st.body[0]
+            t = g.test
+            if (isinstance(t, ast.Compare) and len(t.ops) == 1 and isinstance(t.ops[0], ast.NotIn)
+                    and ast.unparse(t.left) == tgt and ast.unparse(t.comparators[0]) in lists
+                    and len(g.body) == 1 and isinstance(g.body[0], ast.Continue) and not g.orelse):
+                return self.loop_over(lists[ast.unparse(t.comparators[0])], "k", {tgt: "k"}, st.body[1:], extra_guard="k")
+        # (c) `for a, b in zip(self.xs, self.ys):` over two list-of-keys parameters
+        if (isinstance(st.iter, ast.Call) and ast.unparse(st.iter.func) == "zip" and len(st.iter.args) == 2
+                and all(ast.unparse(a) in lists for a in st.iter.args) and isinstance(st.target, ast.Tuple)):
+            a, b = (ast.unparse(e) for e in st.target.elts)
+            la, lb = (lists[ast.unparse(x)] for x in st.iter.args)
+            return self.loop_over(f"({la}.zip {lb})", "(o, n)", {a: "o", b: "n"}, st.body, extra_guard=None)
+        # (d) the percentile block of ComputeScalingFactor, recognised as a whole
+        if it == "range(data.size(0))" and _norm(ast.unparse(st)) == _norm(PERCENTILE_LOOP):
+            data = self.locals.get("data")
+            if isinstance(data, Loc):
+                d = self.fresh()
+                self.emit_assign(d.term, ".kthModulus", [data.term])
+                self.locals["scaling_factor"] = d
+                return None
+        # (e) loops that only write non-tensor entries
+        if self.is_meta_expr(st.iter) and all(
+                isinstance(b, ast.Assign) and self.is_sample_sub(b.targets[0]) and self.is_meta_expr(b.value) for b in st.body):
+            for b in st.body:
+                try:
+                    if self.sample_key(b.targets[0].slice) is not None:
+                        raise Untranslatable("loop writes a tensor key")
+                except Untranslatable:
+                    pass
+            return None
+        raise Untranslatable(f"{self.cls}: loop `{ast.unparse(st)[:70]}`")
+
+    def loop_over(self, lean_list: str, binder: str, keyvars: dict, body, extra_guard):
+        saved_out, saved_kv, saved_guards = self.out, dict(self.keyvars), list(self.guards)
+        self.out = []
+        self.keyvars.update(keyvars)
+        if extra_guard:
+            self.guards.append(extra_guard)
+        self.run_body(body)
+        inner = self.out
+        self.out, self.keyvars, self.guards = saved_out, saved_kv, saved_guards
+        if len(inner) == 1:
+            self.out.append(("list", f"({lean_list}.map fun {binder} => {inner[0]})"))
+        elif inner:
+            self.out.append(("list", f"({lean_list}.flatMap fun {binder} => [{', '.join(inner)}])"))
+        return None
+
+    def splitter_stmt(self, st: ast.Assign):
+        """`input_mask, target_mask = zip(*[… self.split_method(mask[_], acs[_] if keep_acs else None, seed) …])`"""
+        call = next(n for n in ast.walk(st.value) if isinstance(n, ast.Call) and ast.unparse(n.func) == "self.split_method")
+        if len(call.args) != 3:
+            raise Untranslatable("split_method arguments")
+
+        def base(n):
+            while isinstance(n, ast.Subscript):
+                n = n.value
+            v = self.ev(n)
+            if not isinstance(v, Loc):
+                raise Untranslatable(f"split_method argument `{ast.unparse(n)}`")
+            return v
+        args = [base(call.args[0])]
+        a1 = call.args[1]
+        if isinstance(a1, ast.IfExp):
+            tv = self.truth(a1.test)
+            if tv is None:
+                raise Untranslatable("split_method acs argument")
+            a1 = a1.body if tv else a1.orelse
+        if ast.unparse(a1) != "None":
+            args.append(base(a1))
+        if "map(ord" not in ast.unparse(call.args[2]) or "use_seed" not in ast.unparse(call.args[2]):
+            raise Untranslatable("split_method seed argument")
+        names = [e.id for e in st.targets[0].elts]
+        for inp, name in (("true", names[0]), ("false", names[1])):
+            d = self.fresh()
+            self.emit_assign(d.term, f"(.split {inp} ty seed)", [a.term for a in args])
+            self.locals[name] = Loc(d.term, temp=True, kind="mask")
+        return None
 
     def methods(self):
         cls = next(n for n in ast.walk(self.tree) if isinstance(n, ast.ClassDef) and n.name == self.cls)
@@ -1177,7 +1416,18 @@ class StageExec:
         return self.finish()
 
 
-def _parse_instr(i: str):
+PERCENTILE_LOOP = """for _ in range(data.size(0)):
+    non_padded_coil_data = data[_][data[_].sum(dim=tuple(range(1, data[_].ndim))).bool()]
+    tview = -1.0 * T.modulus(non_padded_coil_data).view(-1)
+    s, _ = torch.kthvalue(tview, int((1 - self.percentile) * tview.size()[0]) + 1)
+    scaling_factor += [-1.0 * s]"""
+
+
+def _norm(t: str) -> str:
+    return " ".join(t.split())
+
+
+def _parse_instr(i):
     """(kind, guards, dst, op, args) of an emitted instruction string"""
     if i.startswith(".assign "):
         rest = i[len(".assign "):]
@@ -1213,6 +1463,8 @@ def _fmt_instr(p) -> str | None:
 def coalesce(instrs: list[str]) -> list[str]:
     """register coalescing: a temporary whose value ends up under sample key K (last use `move t K`, or sole argument
     of the final `K ← op [t]`) lives in K from its definition on, provided K is neither read nor written in between"""
+    if any(isinstance(i, tuple) for i in instrs):
+        return instrs          # programs with list-valued segments (loops over key lists) are left as they are
     prog = [_parse_instr(i) for i in instrs]
     changed = True
     while changed:
